@@ -63,6 +63,23 @@ class Outcome:
         return f"Outcome(result={self.result!r}, raised={self.raised_type()}, trace={len(self.trace)})"
 
 
+class Throw:
+    """Returned by an on_yield callback to raise an exception at the suspension point (e.g. asyncio.CancelledError)."""
+
+    def __init__(self, cls, *args):
+        self.cls = cls
+        self.args = args
+
+
+class _NativeAwaitable:
+    def __init__(self, tag, args):
+        self.item = ("await", tag) + tuple(args)
+
+    def __await__(self):
+        r = yield self.item
+        return r
+
+
 class Obligation:
     def __init__(self, name, status, backend="", seconds=0.0, model=None, path=None, detail=""):
         self.name = name
@@ -211,6 +228,7 @@ class Explorer:
         self.class_mutables = {}
         self.known = {}
         self.cases = {}
+        self.used_invariant = False
         self.path_names = []
         self.symbols = {}  # name -> (kind, z3 const)
         self.path_obligations = []
@@ -282,6 +300,13 @@ class Explorer:
         k = c.get_id()
         if k in self.known:
             return self.known[k]
+        # the same literal already decided on this path in another syntactic form (negated / equality with swapped sides)
+        x, neg = (c.arg(0), True) if z3.is_not(c) else (c, False)
+        for y in ([x, x.arg(1) == x.arg(0)] if z3.is_eq(x) else [x]):
+            if y.get_id() in self.known:
+                return self.known[y.get_id()] != neg
+            if z3.Not(y).get_id() in self.known:
+                return self.known[z3.Not(y).get_id()] == neg
         if self.pos < len(self.decisions):
             d = self.decisions[self.pos]
         else:
@@ -347,12 +372,14 @@ class Explorer:
         if z3.is_true(cs):
             self.results.append(Obligation(name, "proved", "simplifier", 0.0, path=list(self.decisions[: self.pos])))
             return
-        status, backend, dt, model = solve(self.pc + [z3.Not(cond)])
+        # scenario option z3_timeout_ms: hand string-heavy queries to cvc5 sooner (portfolio order unchanged)
+        status, backend, dt, model = solve(self.pc + [z3.Not(cond)], timeout_ms=getattr(self, "z3_timeout_ms", None))
         self.solver_seconds += dt
         if status == "unsat":
             self.results.append(Obligation(name, "proved", backend, dt, path=list(self.decisions[: self.pos])))
         elif status == "sat":
-            self.results.append(Obligation(name, "failed", backend, dt, model=self.model_values(model), path=list(self.decisions[: self.pos])))
+            rm = self.realistic_model(self.pc + [z3.Not(cond)])  # scenario option `candidates` (uninterpreted library functions)
+            self.results.append(Obligation(name, "failed", backend, dt, model=rm if rm is not None else self.model_values(model), path=list(self.decisions[: self.pos])))
         else:
             # no verdict: look for a *candidate* counter-model under a weaker path condition (quantified facts dropped);
             # it only counts if the native replay on the real code confirms it.
@@ -371,7 +398,15 @@ class Explorer:
         """CPython conformance of the symbolic executor: keep a concrete input for some completed paths; the runner runs
         the real code on it and compares which obligations were reached and that none fails natively."""
         budget = 40 if os.environ.get("PYVC_TIER") == "thorough" else 4
-        if len(self.conf_samples) >= budget or not self.path_names:
+        if len(self.conf_samples) >= budget or not self.path_names or getattr(self, "used_invariant", False):
+            return
+        if getattr(self, "candidates", None):
+            # path conditions over uninterpreted library functions: only a model that agrees with the real library is a
+            # usable CPython sample (none found => no sample for this path)
+            rm = self.realistic_model(self.pc)
+            if rm is not None:
+                failed_here = [o.name for o in self.results[-len(self.path_names):] if o.status == "failed"]
+                self.conf_samples.append(dict(model=rm, names=list(self.path_names), failed_sym=failed_here))
             return
         s = z3.Solver()
         s.set("timeout", 2000)
@@ -379,6 +414,33 @@ class Explorer:
         if s.check() == z3.sat:
             failed_here = [o.name for o in self.results[-len(self.path_names):] if o.status == "failed"]
             self.conf_samples.append(dict(model=self.model_values(s.model()), names=list(self.path_names), failed_sym=failed_here))
+
+    def realistic_model(self, constraints):
+        """Scenario option `candidates` = list (or callable returning a list) of {symbol name: concrete value}: for path
+        conditions that mention uninterpreted library functions with a native oracle (lib.UF_ORACLES), look for a model
+        in which the listed symbols take a candidate's values and every oracle application is replaced by the real
+        library's result.  Used only to make counter-models / conformance samples replayable; never for proving."""
+        cands = getattr(self, "candidates", None)
+        if not cands:
+            return None
+        from . import lib
+
+        for cand in (cands() if callable(cands) else cands):
+            subst = [(self.symbols[n][1], _z(v)) for n, v in cand.items() if n in self.symbols]
+            try:
+                cs = [lib.eval_oracles(z3.substitute(c, *subst) if subst else c) for c in constraints]
+            except Exception:
+                continue
+            s = z3.Solver()
+            s.set("timeout", 2000)
+            s.add(*cs)
+            if s.check() == z3.sat:
+                out = self.model_values(s.model())
+                for n, v in cand.items():
+                    if n in self.symbols:
+                        out[n] = {"str": v} if isinstance(v, str) else {"bytes": bytes(v).hex()} if isinstance(v, (bytes, bytearray)) else v
+                return out
+        return None
 
     def candidate_search(self, cond):
         """Bounded search for a candidate counter-model when the solvers answer unknown: sequences are replaced by
@@ -639,6 +701,24 @@ class SymVC:
         """A ghost trace item (tuple) recording an abstracted effect."""
         return STuple([SStr(tag)] + [lift(a) for a in args])
 
+    def context_manager(self, on_enter=None, on_exit=None):
+        """A context manager for summaries of `with x():` callees. on_enter() -> value bound by `as`; on_exit(exc_or_None)."""
+
+        def exit_(exc):
+            if on_exit is not None:
+                on_exit(exc)
+            return False
+
+        return SConst(("ctx", lift(on_enter()) if on_enter is not None else NONE, exit_))
+
+    def awaitable(self, tag, *args):
+        """An environment awaitable (asyncio.sleep, Event.wait, a hook, ...): `await` on it is a suspension point that is
+        handed to vc.call's on_yield as ("await", tag, *args); on_yield's return value is the await's result."""
+        return SConst(("awaitable", tag) + tuple(args))
+
+    def throw(self, cls, *args):
+        return Throw(cls, *args)
+
     def invariant(self, ref, ordinal, fn):
         mod, qual, _ = ref.split(":")[0], ref.split(":")[1], None
         self.ex.invariants[(ref, ordinal)] = fn
@@ -673,9 +753,13 @@ class SymVC:
         trace = []
 
         def sink(cmd):
+            if isinstance(cmd, SConst) and isinstance(cmd.obj, tuple) and cmd.obj and cmd.obj[0] == "awaitable":
+                cmd = ("await",) + tuple(cmd.obj[1:])  # suspension point: same shape in both modes
             trace.append(cmd)
             if on_yield is not None:
                 r = on_yield(cmd)
+                if isinstance(r, Throw):
+                    raise I.PyExc(I.exc_obj(r.cls, *r.args))
                 return NONE if r is None else lift(r)
             return NONE
 
@@ -683,9 +767,9 @@ class SymVC:
         kwargs = {k: lift(v) for k, v in kwargs.items()}
         try:
             if isinstance(f, SBound):
-                r = self.it.call_ifunc(f.func, [f.self_] + args, kwargs)
+                r = self.it.call_ifunc(f.func, [f.self_] + args, kwargs, sink=sink)
             else:
-                r = self.it.call_ifunc(f, args, kwargs)
+                r = self.it.call_ifunc(f, args, kwargs, sink=sink)
             if isinstance(r, I.SGen):
                 r = self.it.consume_gen(r, sink)
             return Outcome(result=self.it.resolve(r), trace=trace)
@@ -710,6 +794,29 @@ class SymVC:
 
 class NativeStop(Exception):
     pass
+
+
+_ALIAS_CACHE: dict = {}
+
+
+def _aliases_of(orig, owner):
+    """(module, name) pairs under which a module-level function is also importable (`from m import f`). Cached."""
+    key = id(orig)
+    if key not in _ALIAS_CACHE:
+        import types as _types
+
+        out = []
+        for m in list(sys.modules.values()):
+            if not isinstance(m, _types.ModuleType) or m is owner:
+                continue
+            d = getattr(m, "__dict__", None)
+            if not d:
+                continue
+            for name, val in list(d.items()):
+                if val is orig:
+                    out.append((m, name))
+        _ALIAS_CACHE[key] = out
+    return _ALIAS_CACHE[key]
 
 
 class NativeVC:
@@ -863,6 +970,12 @@ class NativeVC:
 
         self._patches.append((owner, parts[-1], orig, parts[-1] in owner.__dict__))
         setattr(owner, parts[-1], staticmethod(wrapper) if is_static else wrapper)
+        if not isinstance(owner, type):
+            # module-level function: also patch every `from m import f` alias of the same object
+            for m, name in _aliases_of(orig, owner):
+                if getattr(m, name, None) is orig:
+                    self._patches.append((m, name, orig, True))
+                    setattr(m, name, wrapper)
 
     def restore(self):
         for owner, name, orig, had in reversed(self._patches):
@@ -882,6 +995,30 @@ class NativeVC:
 
     def ghost(self, tag, *args):
         return (tag,) + tuple(args)
+
+    def context_manager(self, on_enter=None, on_exit=None):
+        import contextlib
+
+        @contextlib.contextmanager
+        def cm():
+            v = on_enter() if on_enter is not None else None
+            try:
+                yield v
+            except BaseException as e:
+                if on_exit is not None:
+                    on_exit(e)
+                raise
+            else:
+                if on_exit is not None:
+                    on_exit(None)
+
+        return cm()
+
+    def awaitable(self, tag, *args):
+        return _NativeAwaitable(tag, args)
+
+    def throw(self, cls, *args):
+        return Throw(cls, *args)
 
     def invariant(self, ref, ordinal, fn):
         pass
@@ -911,20 +1048,27 @@ class NativeVC:
             r = fn(*args, **kwargs)
             import types as _t
 
-            if isinstance(r, _t.GeneratorType):
+            import contextlib as _cl
+
+            if isinstance(r, _cl._GeneratorContextManager):
+                r = r.gen  # @contextmanager function: drive its generator (enter part, yield, exit part) like proof mode does
+            if isinstance(r, (_t.GeneratorType, _t.CoroutineType)):
                 reply = None
                 try:
-                    cmd = next(r)
+                    cmd = r.send(None)
                     while True:
                         trace.append(cmd)
                         reply = on_yield(cmd) if on_yield is not None else None
-                        cmd = r.send(reply)
+                        if isinstance(reply, Throw):
+                            cmd = r.throw(reply.cls(*reply.args))
+                        else:
+                            cmd = r.send(reply)
                 except StopIteration as si:
                     r = si.value
             return Outcome(result=r, trace=trace)
-        except NativeStop:
+        except (NativeStop, KeyboardInterrupt, SystemExit):
             raise
-        except Exception as e:  # the real code raised
+        except BaseException as e:  # the real code raised (incl. asyncio.CancelledError, a BaseException)
             return Outcome(raised=e, trace=trace)
 
     def getattr(self, obj, name):
